@@ -2,7 +2,33 @@ package interp
 
 // Environment stubs: the file system, plug-ins, logging and the clock.
 
+// extSortSlice: sort.Slice / sort.SliceStable (the real ones need reflection for the
+// swapper): a stable insertion sort driven by the target's less function.
+func extSortSlice(fr *frame, a []value) value {
+	i := fr.i
+	x := a[0].(iface)
+	sl, ok := x.v.([]value)
+	if !ok {
+		panic(pathEnd{kind: "unsupported", msg: "sort.Slice of a non-slice"})
+	}
+	less := a[1]
+	for k := 1; k < len(sl); k++ {
+		for j := k; j > 0; j-- {
+			r := call(i, fr, 0, less, []value{j, j - 1})
+			if !i.truth(r) {
+				break
+			}
+			tmp := sl[j]
+			i.write(&sl[j], sl[j-1])
+			i.write(&sl[j-1], tmp)
+		}
+	}
+	return nil
+}
+
 func registerEnv() {
+	externals["sort.Slice"] = extSortSlice
+	externals["sort.SliceStable"] = extSortSlice
 	externals["errors.Is"] = unsupported("errors.Is (reflection)")
 	externals["errors.As"] = unsupported("errors.As (reflection)")
 	errOf := func(fr *frame, msg string) value { return fr.i.callByName(fr, "errors.New", msg) }
@@ -36,6 +62,9 @@ func registerEnv() {
 		"github.com/sirupsen/logrus.Debugln", "github.com/sirupsen/logrus.Infoln", "github.com/sirupsen/logrus.Errorln",
 	} {
 		externals[n] = func(fr *frame, a []value) value { return nil }
+	}
+	externals["log/syslog.NewLogger"] = func(fr *frame, a []value) value {
+		return tuple{(*value)(nil), errOf(fr, "syslog: not available (stub)")}
 	}
 	externals["log.New"] = func(fr *frame, a []value) value {
 		var cell value = structure{}
